@@ -335,6 +335,14 @@ class SpecCircular(Exception):
     pass
 
 
+class SpecKeyError(Exception):
+    """a readout / computed coefficient names something the argument table does not hold (those names are not part
+    of the dependency check): Python raises KeyError(name)"""
+
+    def __init__(self, name):
+        self.name = name
+
+
 class Spec:
     """Order-free restatement: the value a name has is its function applied to the values
     of the names it mentions.  Used as the search oracle S; it never looks at any order."""
@@ -468,7 +476,7 @@ class Spec:
         return feval(cj["e"], [env_val[a] if a in env_val else self._late(a, env_val) for a in cj["args"]])
 
     def _late(self, a, env_val):
-        raise KeyError(a)
+        raise SpecKeyError(a)
 
     def flux_names(self):
         out = list(self.rxns)
@@ -581,7 +589,14 @@ class Spec:
                 if k in stack:
                     raise SpecCircular
                 f = self.readouts[k]
-                xs = [ro_val(a, stack + (k,)) if a in self.readouts else env[a] for a in f["args"]]
+                xs = []
+                for a in f["args"]:
+                    if a in self.readouts:
+                        xs.append(ro_val(a, stack + (k,)))
+                    elif a in env:
+                        xs.append(env[a])
+                    else:
+                        raise SpecKeyError(a)
                 memo[k] = feval(f["e"], xs)
                 return memo[k]
 
@@ -590,13 +605,29 @@ class Spec:
         return [[k, rat_str(vals[k])] for k in self.arg_names(fl)]
 
     def answer_tc(self, rows):
-        out = {"args": {"ok": []}, "fluxes": {"ok": []}, "rhs": {"ok": []}}
-        for t, st in rows:
-            env = self.at(dict(st), t)
-            out["args"]["ok"].append(sorted([k, rat_str(v)] for k, v in env.items() if k != "time" and k not in self.data))
-            out["fluxes"]["ok"].append(sorted([k, rat_str(env[k])] for k in self.flux_names()))
-            d = self.rhs(dict(st), t)
-            out["rhs"]["ok"].append(sorted([k, rat_str(d[k])] for k in self.vars))
+        out = {}
+
+        def part(name, fn):
+            try:
+                out[name] = {"ok": [fn(t, dict(st)) for t, st in rows]}
+            except SpecKeyError as e:
+                out[name] = {"err": ["KeyError", e.name]}
+
+        def p_args(t, st):
+            env = self.at(st, t)
+            return sorted([k, rat_str(v)] for k, v in env.items() if k != "time" and k not in self.data)
+
+        def p_fluxes(t, st):
+            env = self.at(st, t)
+            return sorted([k, rat_str(env[k])] for k in self.flux_names())
+
+        def p_rhs(t, st):
+            d = self.rhs(st, t)
+            return sorted([k, rat_str(d[k])] for k in self.vars)
+
+        part("args", p_args)
+        part("fluxes", p_fluxes)
+        part("rhs", p_rhs)
         return out
 
     def answer(self, q):
@@ -615,7 +646,9 @@ class Spec:
             if kind == "tc":
                 return self.answer_tc(q[1])
             if kind == "argnames":
-                self.check()
+                # only the two derived groups need the resolved model (and so reject a bad graph)
+                if q[1][3] or q[1][4]:
+                    self.check()
                 return {"ok": self.arg_names(q[1])}
             if kind == "argsftc":
                 fl = list(q[2])
@@ -650,6 +683,8 @@ class Spec:
             err = {"err": ["MissingDependenciesError", e.missing]}
         except SpecCircular:
             err = {"err": ["CircularDependencyError"]}
+        except SpecKeyError as e:
+            err = {"err": ["KeyError", e.name]}
         return {"args": err, "fluxes": err, "rhs": err} if q[0] == "tc" else err
 
 
